@@ -68,6 +68,14 @@ def _graph_state_scenarios(states, pid, rng, limit, folds=(False,), costs=False)
         arch = pitgen.arch_from_tla(s["arch"])
         reps = pitgen.comp_reps(arch)
         alive = pitgen.alive_for_layers(arch, pitgen.fun_items(s["f"]), reps)
+        # layers whose width the MODEL says is frozen (tied to the network input / output): try to prune them anyway -
+        # "for every value of the architectural parameters" they must keep their full width
+        from ..archgen import shapes as _shapes
+        sh_ = _shapes(arch)
+        for n_ in reps:
+            if str(n_) not in alive and rng.random() < 0.7:
+                w_ = sh_[n_]["ch"]
+                alive[str(n_)] = sorted({c for c in range(1, w_ + 1) if rng.random() < 0.5} | {w_})
         for fold in folds:
             sc = {"arch": arch, "fold": fold, "seed": rng.randrange(10 ** 6), "alive": alive, "tm": {},
                   "props": _props(pid), "src": "tlc-graph"}
